@@ -376,6 +376,9 @@ class Exec:
     def find_fn(s, c):
         c = norm(c)
         c = re.sub(r"for<'a> fn\(&'a T\) -> T \{<T as Clone>::clone\}", 'CloneFn', c)
+        mc = re.match(r'^<(.*) as Iterator>::collect::<(.*)>$', c)
+        if mc:      # core: `fn collect<B: FromIterator<Item>>(self) -> B { FromIterator::from_iter(self) }`
+            c = '<%s as FromIterator<_>>::from_iter' % mc.group(2)
         c = re.sub(r'::<[^<>]*(<[^<>]*(<[^<>]*(<[^<>]*>[^<>]*)*>[^<>]*)*>[^<>]*)*>$', '', c)  # trailing method generics
         m = re.match(r'^<<<Lhs as MappedGenericSequence<.*>>::Mapped as GenericSequence<.*>>::Sequence as FromIterator<.*>>::from_iter', c)
         if m:      # Lhs: a GenericSequence of the same length whose owned form is a GenericArray (scenario: a reference to a GenericArray)
@@ -471,6 +474,23 @@ class Exec:
                   'element dropped while not live (double drop / drop of uninitialised or moved-out slot)', where)
         st.status[arr] = z3.If(inr, DROPPED, st.status[arr])
         st.events.append('%s %s[%s..%s)' % (what, arr.name, z3.simplify(a), z3.simplify(b)))
+
+    def drop_slice(s, st, sl, where):
+        """drop_in_place of a slice of elements: the ledger event plus the unwind edge of a panicking element destructor"""
+        if isinstance(sl, ArrRef):
+            sl = Slice(sl.arr, bv(0), sl.arr.len)
+        s.ev_drop_range(st, sl.arr, sl.start, sl.end, where)
+        outs = [(st, 'ret', UNIT)]
+        s2 = st.clone()
+        ne = ULT(sl.start, sl.end)
+        nd = s.needs_drop.get('T')
+        cond = ne if nd is None else z3.And(ne, nd)
+        if s.feasible(s2, cond):
+            s2.pc.append(cond)
+            s2.events.append('  ^an element destructor panicked (slice drop glue still drops the rest of the range)')
+            s.unwind_edges += 1
+            outs.append((s2, 'unwind', None))
+        return outs
 
     def ev_move_out(s, st, arr, i, where):
         s.require(st, ULT(i, arr.len), 'element read out of bounds', where)
@@ -1311,6 +1331,73 @@ class Exec:
         c = norm(callee)
         R = lambda v: [(st, 'ret', v)]
         s.summaries_used.add(re.sub(r'::<.*?>(?=::|$)', '', re.sub(r'<[^<>]*(<[^<>]*(<[^<>]*>[^<>]*)*>[^<>]*)*>', '<..>', c))[:80])
+        # ---- core helpers on usize / Option<usize> / raw-pointer methods (so that equivalent spellings of the same code stay decidable)
+        mm = re.search(r'(?:^|::)(min|max)::<usize>$', c) or re.match(r'^<usize as Ord>::(min|max)$', c)
+        if mm:
+            a, b = args
+            return R(z3.If(ULE(a, b), a, b) if mm.group(1) == 'min' else z3.If(ULE(a, b), b, a))
+        mm = re.match(r'^(?:core::)?num::<impl usize>::(\w+)$', c)
+        if mm and mm.group(1) in ('saturating_sub', 'saturating_add', 'wrapping_add', 'wrapping_sub', 'abs_diff', 'unchecked_add', 'unchecked_sub',
+                                  'checked_add', 'checked_sub', 'checked_mul', 'min', 'max'):
+            op = mm.group(1)
+            a, b = args
+            MAXV = bv(TWO64 - 1)
+            if op == 'saturating_sub':
+                return R(z3.If(ULT(a, b), bv(0), a - b))
+            if op == 'saturating_add':
+                return R(z3.If(ADDOK(a, b), a + b, MAXV))
+            if op == 'abs_diff':
+                return R(z3.If(ULT(a, b), b - a, a - b))
+            if op == 'wrapping_add':
+                return R(z3.If(a + b >= TWO64, a + b - TWO64, a + b) if is_int() else a + b)
+            if op == 'wrapping_sub':
+                return R(z3.If(a < b, a - b + TWO64, a - b) if is_int() else a - b)
+            if op in ('unchecked_add', 'unchecked_sub'):
+                s.require(st, ADDOK(a, b) if op == 'unchecked_add' else ULE(b, a), op + ' overflows (undefined behaviour)', where)
+                return R(a + b if op == 'unchecked_add' else a - b)
+            if op in ('min', 'max'):
+                return R(z3.If(ULE(a, b), a, b) if op == 'min' else z3.If(ULE(a, b), b, a))
+            ok = {'checked_add': ADDOK(a, b), 'checked_sub': ULE(b, a), 'checked_mul': MULOK(a, b)}[op]
+            val = {'checked_add': a + b, 'checked_sub': a - b, 'checked_mul': a * b}[op]
+            outs = []
+            if s.feasible(st, ok):
+                s1 = st.clone(); s1.pc.append(ok); outs.append((s1, 'ret', Enum('Some', {0: val})))
+            if s.feasible(st, z3.Not(ok)):
+                s2 = st.clone(); s2.pc.append(z3.Not(ok)); outs.append((s2, 'ret', Enum('None', {})))
+            return outs
+        mm = re.match(r'^Option::<usize>::(unwrap|expect|unwrap_or|unwrap_unchecked|unwrap_or_default)$', c)
+        if mm:
+            v = args[0]
+            if v.variant == 'Some':
+                return R(v.fields[0])
+            if mm.group(1) == 'unwrap_or':
+                return R(args[1])
+            if mm.group(1) == 'unwrap_or_default':
+                return R(bv(0))
+            if mm.group(1) == 'unwrap_unchecked':
+                s.require(st, z3.BoolVal(False), 'unwrap_unchecked on None (undefined behaviour)', where)
+            st.events.append('Option::%s on None: panic' % mm.group(1))
+            return [(st, 'unwind', None)]
+        mm = re.match(r'^(?:core::)?ptr::(?:const|mut)_ptr::<impl \*(?:const|mut) (T|B|MaybeUninit<T>)>::(read|write|add|offset|sub|cast_mut|cast_const|drop_in_place)$', c)
+        if mm and isinstance(args[0], (ElemPtr, ArrRef)):
+            p = args[0]
+            if isinstance(p, ArrRef):
+                p = ElemPtr(p.arr, bv(0))
+            op = mm.group(2)
+            if op == 'read':
+                s.ev_move_out(st, p.arr, p.idx, where)
+                return R(Elem(p.arr, p.idx))
+            if op == 'write':
+                s.ev_write(st, p.arr, p.idx, args[1], where)
+                return R(UNIT)
+            if op in ('add', 'offset'):
+                return R(ElemPtr(p.arr, p.idx + args[1], cast=p.cast))
+            if op == 'sub':
+                return R(ElemPtr(p.arr, p.idx - args[1], cast=p.cast))
+            if op in ('cast_mut', 'cast_const'):
+                return R(p)
+            if op == 'drop_in_place':
+                return s.drop_slice(st, Slice(p.arr, p.idx, p.idx + 1), where)
         # ---- ManuallyDrop / MaybeUninit / mem
         if re.match(r'ManuallyDrop::<.*>::new', c):
             return R(args[0])
@@ -1357,19 +1444,9 @@ class Exec:
             s.require(st, ULT(i, sl.end - sl.start), 'get_unchecked(index) out of bounds', where)
             return R(ElemPtr(sl.arr, sl.start + i))
         if re.match(r'(ptr::)?drop_in_place::<\[T\]>', c):
-            sl = args[0]
-            s.ev_drop_range(st, sl.arr, sl.start, sl.end, where)
-            outs = [(st, 'ret', UNIT)]
-            s2 = st.clone()
-            ne = ULT(sl.start, sl.end)
-            nd = s.needs_drop.get('T')
-            cond = ne if nd is None else z3.And(ne, nd)
-            if s.feasible(s2, cond):
-                s2.pc.append(cond)
-                s2.events.append('  ^an element destructor panicked (slice drop glue still drops the rest of the range)')
-                s.unwind_edges += 1
-                outs.append((s2, 'unwind', None))
-            return outs
+            return s.drop_slice(st, args[0], where)
+        if re.match(r'(ptr::)?drop_in_place::<T>$', c) and isinstance(args[0], ElemPtr):
+            return s.drop_slice(st, Slice(args[0].arr, args[0].idx, args[0].idx + 1), where)
         if re.search(r'(^|::)read::<(T|B)>$', c):
             p = args[0]
             s.ev_move_out(st, p.arr, p.idx, where)
